@@ -574,12 +574,19 @@ class Run:
 
             def wrapper(task, *a, **kw):
                 pre = task.state.name
+                raised = True
                 try:
-                    return orig(task, *a, **kw)
+                    r = orig(task, *a, **kw)
+                    raised = False
+                    return r
                 finally:
                     post = task.state.name
                     if pre != post:
                         run.mon.append({"ev": "transition", "t": run.label(task), "via": name, "pre": pre, "post": post, "now": us(run.sim._simulator_time) if hasattr(run, "sim") else None})
+                    elif not raised and name in ("unschedule", "start", "finish"):
+                        # these calls must move the task on (a re-`schedule` of a SCHEDULED task and the `release` of a
+                        # task that was planned ahead legitimately keep the state)
+                        run.mon.append({"ev": "noop_call", "t": run.label(task), "via": name, "state": pre, "now": us(run.sim._simulator_time) if hasattr(run, "sim") else None})
 
             setattr(Task, name, wrapper)
 
